@@ -7,6 +7,7 @@ pub mod c08;
 pub mod c09;
 pub mod c10;
 pub mod c11;
+pub mod c12;
 pub mod c13;
 pub mod c14;
 pub mod c15;
@@ -26,6 +27,7 @@ pub fn by_id(id: &str) -> Option<Box<dyn Property>> {
         "C09" => Box::new(c09::C09),
         "C10" => Box::new(c10::C10),
         "C11" => Box::new(c11::C11),
+        "C12" => Box::new(c12::C12),
         "C13" => Box::new(c13::C13),
         "C14" => Box::new(c14::C14),
         "C15" => Box::new(c15::C15),
